@@ -437,6 +437,9 @@ func (fx *FnExec) typeInvOnLoad(st *State, t types.Type, v *Val) {
 	if e.typeInvDone[v.L[0]] {
 		return
 	}
+	if _, fresh := e.refBirth[v.L[0]]; fresh {
+		return // object allocated by this activation (possibly still under construction)
+	}
 	e.typeInvDone[v.L[0]] = true
 	e.inTypeInv++
 	defer func() { e.inTypeInv-- }()
@@ -802,9 +805,10 @@ func (fx *FnExec) applyContract(st *State, callee *ssa.Function, con *FnContract
 		if sv != nil && len(sv.V.L) == 1 {
 			g = sv.V.L[0]
 		}
-		e.addObl("contract", fmt.Sprintf("call:%s:requires%s", shortFnKey(key), rq.labelStr()), rq.Tags, st, g, pos)
+		e.addObl("contract", fmt.Sprintf("call:%s:requires%s", shortFnKey(key), rq.labelStr()), fx.clauseTags(rq), st, g, pos)
 		e.assume(st, g)
 	}
+	fx.checkHeldAtCall(st, con, env, key, pos)
 	// lock discipline at the call: callee acquires these lock classes; they must be free
 	ws := e.calleeWriteSet(callee, con)
 	if ws != nil {
@@ -997,6 +1001,16 @@ func (fx *FnExec) assumeHeld(st *State) {
 		return
 	}
 	for _, h := range fx.con.Held {
+		if h == "class" {
+			continue
+		}
+		if key, class, ok := e.lockClassKey(h, fx.con.Pkg); ok {
+			ref := e.c.fresh("lockowner", SInt)
+			e.assume(st, "(> "+ref+" 0)")
+			st.heap[key] = e.c.define("K", arrSort(SInt, SInt), store(e.heapGet(st, key), ref, "1"))
+			fx.topHeld = append(fx.topHeld, heldLock{key: key, ref: ref, class: class})
+			continue
+		}
 		ex, err := parseSpecExpr(h)
 		if err != nil {
 			e.specErrors = append(e.specErrors, "locks held: "+err.Error())
@@ -1013,6 +1027,51 @@ func (fx *FnExec) assumeHeld(st *State) {
 		key := e.keyLock(loc.S, loc.Path)
 		st.heap[key] = e.c.define("K", arrSort(SInt, SInt), store(e.heapGet(st, key), loc.Ref, "1"))
 		fx.topHeld = append(fx.topHeld, heldLock{key: key, ref: loc.Ref, class: lockClassOf(loc)})
+	}
+}
+
+// lockClassKey resolves "T.field" (a lock class name, not an expression) to its heap key.
+func (e *Engine) lockClassKey(name string, pkg string) (key string, class string, ok bool) {
+	i := strings.Index(name, ".")
+	if i < 0 {
+		return
+	}
+	tp := e.w.typesPkg(pkg)
+	if tp == nil {
+		return
+	}
+	obj := tp.Scope().Lookup(name[:i])
+	if obj == nil {
+		return
+	}
+	if _, isType := obj.(*types.TypeName); !isType {
+		return
+	}
+	return e.keyLock(obj.Type(), name[i+1:]), pkg + "." + name, true
+}
+
+// checkHeldAtCall asserts that the caller holds (W) the locks the callee declares `locks held`.
+func (fx *FnExec) checkHeldAtCall(st *State, con *FnContract, env *SpecEnv, key string, pos token.Pos) {
+	e := fx.e
+	tags := e.autoTags("lock", fx.fn)
+	for _, h := range con.Held {
+		if h == "class" {
+			continue
+		}
+		goal := "false"
+		if _, class, ok := e.lockClassKey(h, con.Pkg); ok {
+			for _, hl := range append(e.held(st), fx.topHeld...) {
+				if hl.class == class {
+					goal = or(goal, eq(sel(e.heapGet(st, hl.key), hl.ref), "1"))
+				}
+			}
+		} else if ex, err := parseSpecExpr(h); err == nil {
+			if sv := env.eval(ex); sv != nil && sv.V.Loc != nil {
+				loc := sv.V.Loc
+				goal = eq(sel(e.heapGet(st, e.keyLock(loc.S, loc.Path)), loc.Ref), "1")
+			}
+		}
+		e.addObl("lock", "held:call:"+shortFnKey(key)+":"+h, tags, st, goal, pos)
 	}
 }
 
